@@ -5,9 +5,11 @@ import Driver.RegistryOps
 import Driver.DispatchOps
 import Driver.NormalizeOps
 import Driver.TablesOps
+import Driver.BlockOps
+import Driver.ThreadsOps
 
 namespace Driver
 
-def handlers : List Handler := [registryHandler, dispatchHandler, normalizeHandler, tablesHandler]
+def handlers : List Handler := [registryHandler, dispatchHandler, normalizeHandler, tablesHandler, blockHandler, threadsHandler]
 
 end Driver
